@@ -68,7 +68,7 @@ EDITS = {
         0
     )
     return obj""")], 'flags dropped from the cache key and from the compiled object'),
-    'C15-hash-ignores-type': ('C15', [(T, "            temp.append(type(v))\n            temp.append(v)", "            temp.append(v)")], 'control: hash without types (equal objects still hash equal) - should NOT be caught'),
+    'C15-hash-other-function': ('C15', [(T, "        super().__setattr__('_hash', hash(tuple(temp)))", "        super().__setattr__('_hash', hash(tuple(reversed(temp))))")], 'control: another hash function over the same values (equal objects still hash equal) - should NOT be caught'),
     'C15-maxcache-unbounded': ('C15', [(P, "@lru_cache(maxsize=_MAXCACHE)\ndef _cached_css_compile(", "@lru_cache(maxsize=None)\ndef _cached_css_compile(")], 'unbounded cache'),
     'C15-eq-ignores-flags': ('C15', [(T, "            all(getattr(other, key) == getattr(self, key) for key in self.__slots__ if key != '_hash')",
                                       "            all(getattr(other, key) == getattr(self, key) for key in self.__slots__ if key not in ('_hash', 'flags'))")],
